@@ -119,7 +119,7 @@ class CGen:
                 op = r.choice(['+', '-', '*', '/', '%', '+', '-', '*'])
                 if op in '/%' and self.runtime and r.random() < 0.25:
                     # run-time dividend, constant divisor (sometimes zero: must then fault at run time in both forms)
-                    return Bin(op, Var('rv', INT), r.choice([Lit(INT, 0), Bin('-', Lit(INT, 2), Lit(INT, 2)), Lit(INT, 3), Lit(INT, 1)]))
+                    return Bin(op, Var('rv', INT), r.choice([Lit(INT, 0), Bin('-', Lit(INT, 2), Lit(INT, 2)), Lit(INT, 3), Lit(INT, 1), Lit(INT, 65536), Lit(INT, -(1 << 24)), Lit(INT, 3 << 32), Bin('*', Lit(INT, 256), Lit(INT, 256))]))   # the last four are zero on the target at some word sizes
                 return Bin(op, self.num(d - 1), self.num(d - 1))
             if c < 0.7:
                 return Un(r.choice(['-', '+']), self.num(d - 1))
